@@ -130,13 +130,13 @@ Section Emit.
     | JStr s => write_json_string_ch pf (cstr0 s)
     | JArr items =>
       let open := [C1 91] ++ (match items with [] => [] | _ => if pretty then [C1 10] else [] end) in
-      let close := (match items with [] => [] | _ => if pretty then [CN 32 lvl] else [] end) ++ [C1 93] in
+      let close := (match items with [] => [] | _ => if pretty then [CN 32 (lvl * indent pf)] else [] end) ++ [C1 93] in
       match (fix go (l : list jval) : res (list chunk) :=
                match l with
                | [] => Ok []
                | x :: r =>
                  bindc (emit_jbl (lvl + 1) x) (go r) (fun a b =>
-                   (if pretty then [CN 32 (lvl + 1)] else []) ++ a
+                   (if pretty then [CN 32 (lvl * indent pf + indent pf)] else []) ++ a
                    ++ (match r with [] => [] | _ => [C1 44] end) ++ (if pretty then [C1 10] else []) ++ b)
                end) items with
       | Err e => Err e
@@ -144,7 +144,7 @@ Section Emit.
       end
     | JObj members =>
       let open := [C1 123] ++ (match members with [] => [] | _ => if pretty then [C1 10] else [] end) in
-      let close := (match members with [] => [] | _ => if pretty then [CN 32 lvl] else [] end) ++ [C1 125] in
+      let close := (match members with [] => [] | _ => if pretty then [CN 32 (lvl * indent pf)] else [] end) ++ [C1 125] in
       match (fix go (l : list (list Z * jval)) : res (list chunk) :=
                match l with
                | [] => Ok []
@@ -153,7 +153,7 @@ Section Emit.
                  | Err e => Err e
                  | Ok kt =>
                    bindc (emit_jbl (lvl + 1) x) (go r) (fun a b =>
-                     (if pretty then [CN 32 (lvl + 1)] else []) ++ kt
+                     (if pretty then [CN 32 (lvl * indent pf + indent pf)] else []) ++ kt
                      ++ (if pretty then [CBuf [58; 32] (-1) 0] else [C1 58]) ++ a
                      ++ (match r with [] => [] | _ => [C1 44] end) ++ (if pretty then [C1 10] else []) ++ b)
                  end
